@@ -250,6 +250,22 @@ def D19b():
     la = eao.portfolio.LinkedAsset(eao.portfolio.Portfolio([p1, p2]), nodes=[N1], name='L', asset1_variable=(p1, 'disp', N1), asset2_variable=(p2, 'bool_on', None))
     la.setup_optim_problem(pr, tg, costs_only=True); return 'no error'
 
+@witness
+def D28():
+    tg = A.Timegrid(dt.date(2021, 1, 1), dt.datetime(2021, 1, 1, 4), freq='h')
+    pr = {'buy': np.array([1., 2, 3, 4]), 'sell': np.array([10., 10, 10, 10])}
+    def parts():
+        nA, nB = A.Node('A'), A.Node('B')
+        return (nB, A.SimpleContract(name='src', nodes=nA, price='buy', min_cap=0, max_cap=5),
+                A.Transport(name='tr', nodes=[nA, nB], min_cap=0, max_cap=3, efficiency=1.),
+                A.SimpleContract(name='snk', nodes=nB, price='sell', min_cap=-10, max_cap=0))
+    nB, src, tr, snk = parts(); pf = eao.portfolio.Portfolio([src, tr, snk]); op = pf.setup_optim_problem(pr, tg)
+    flat = eao.io.extract_output(pf, op, op.optimize(), pr)['prices']['nodal price: B'].values
+    nB, src, tr, snk = parts(); S = eao.portfolio.StructuredAsset(name='S', nodes=[nB], portfolio=eao.portfolio.Portfolio([src, tr]))
+    pf = eao.portfolio.Portfolio([S, snk]); op = pf.setup_optim_problem(pr, tg)
+    wrapped = eao.io.extract_output(pf, op, op.optimize(), pr)['prices']['nodal price: B'].values
+    return f"nodal price at B: flat {np.round(flat, 2)}, with source+transport wrapped {np.round(wrapped, 2)}; N rows={op.cType.count('N')} records={len(op.map_nodal_restr)}"
+
 if __name__ == '__main__':
     which = sys.argv[1:] or list(W)
     for k in which:
